@@ -1,9 +1,47 @@
+mod c01;
+mod c02;
+mod c03;
 mod c18;
 
 use vkit::Property;
 
 fn main() {
-    vkit::main(vec![Property {
+    vkit::main(vec![
+    Property {
+        id: "C01",
+        level: "exploration",
+        rule: "proptest: generated multi-instance pre-state (3 warps x 12 nodes x 10 edges, typed atoms, node/edge portals) x generated data-driven programs with honest footprints (state-aware construction) x k enqueue permutations with duplications x scheduler kind x worker count x rule registration order; size classes small (2-14 rich programs), medium (50-320), across the 1024 threshold (965-2640 incl. exactly 1023/1024/1025 wide candidates). Oracles: all permutations bit-equal (snapshot, receipt, patch, dump); independent reference tick model M (canonical order, greedy admission, effects vs pre-state); removing rejected candidates changes nothing but the receipt; Radix == Legacy. Non-trivial = >=2 accepted and >=1 rejected, or a portal op, or >1024 candidates; distinct = blake3 of case JSON.",
+        assumptions: &[
+            "reference model M and honest-footprint attribution are written from docs/spec (scheduler-warp-core, warp-tick-patch, SPEC-0003) and the property text",
+            "generated programs respect real callers' implicit preconditions (one write per key per rewrite, DeleteNode after deleting incident edges, attachment writes only to owners that exist)",
+        ],
+        subs: c01::subs,
+        max_shards: 16,
+    },
+    Property {
+        id: "C02",
+        level: "exploration",
+        rule: "proptest: C01's tick generator (scopes restricted to 1-3 pool nodes for few work units, unrestricted for large ticks) x schedule. Schedules: with the echo_verif scripted-schedule hook, ALL (assignment of units to <=4 workers x per-worker claim order) for ticks with <=6 units while the count (n+w-1)!/(w-1)! stays under 900 (quick) / 7000 (thorough); 12 / 64 sampled schedules otherwise; real racing threads with worker counts drawn from 1..=32; the five ParallelExecutionPolicy constants x workers {1,2,3,4,8} through execute_parallel_with_policy + the production merge. Oracle: every run bit-equal to the serial run (post-state dump, patch, receipt, snapshot hashes) / merged ops equal to serial merged ops. Non-trivial = a schedule using >=2 workers on a tick with >=2 units whose patch has >=2 ops of one kind in one warp (each such distinct (schedule, tick) counted).",
+        assumptions: &[
+            "workers share only the claim counter and an immutable store (read-verified), so sequential execution of a scripted assignment realises the same per-worker deltas as any interleaving",
+            "real-thread runs are observed, not controlled; their oracle (equality) does not depend on which interleaving occurred",
+        ],
+        subs: c02::subs,
+        max_shards: 16,
+    },
+    Property {
+        id: "C03",
+        level: "exploration",
+        rule: "SchedProbe hook (real pending queue, real drain, real reserve_for_receipt) on raw keys. RNG-free exhaustive: all 46 656 ordered pairs over 108 footprints x 2 instances; all ordered pairs of two-instance footprints with <=2 touched resources (129^2); all 531 441 ordered triples over the 81-element single-instance universe. Each under Radix, Legacy(all-ones mask) and Legacy(one bit per touched resource). proptest: 2-400 random footprints over 2x4 resources; sort sets of 0..5000 keys (dense at 1000-1050, exactly 1023/1024/1025) with shared prefixes of 0-30 bytes and differences confined to one chosen 16-bit digit (all 16 scope passes targeted), rule ids differing only in low/high half, duplicate re-enqueues. Oracles: reference greedy predicate with exact ascending blocker lists; try_from_retained_parts accepts; kinds agree; drain == sorted last-wins reference with payload identity. Non-trivial = conflicting pair / the A-accepts,B-rejected,C-conflicts-only-with-B triple shape / set with a reject and >=2 accepts / sort set >1024 or single-digit differences.",
+        assumptions: &[
+            "conflict predicate is written from the property statement (write vs read/write on node, edge, attachment; any shared port; per instance)",
+            "raw generator keeps compact rule id order equal to rule-id byte order (the only case the engine can produce), so Radix and Legacy are comparable",
+            "factor_mask = 0 with non-empty sets is an unsound mask and is excluded, per footprints_conflict's own comment",
+        ],
+        subs: c03::subs,
+        max_shards: 16,
+    },
+    Property {
         id: "C18",
         level: "exploration",
         rule: "proptest-generated emission sets over 4 channels x 10 policies (Log, StrictSingle, 8 reducers) with payload lengths 0/1/7/8/9/33/random; every permutation of sets <=7 (Heap's algorithm) and 7 sampled permutations beyond; plus RNG-free enumeration of ReduceOp::apply over a 9-value alphabet up to length 3 (quick) / 4 (thorough). Non-trivial = some channel has >=3 emissions of >=2 distinct lengths; distinct = blake3 of the case JSON.",
